@@ -22,7 +22,8 @@ unrodded calculate_xbnds, Core._calculate_gap_xbnds).
     row sums in both directions, the width-weighted integral is preserved, coinciding
     meshes give the identity.  (all interleavings of the two meshes = paths)
 (C) call-site preconditions: the producers return strictly increasing boundaries that
-    start at 0, end at the duct perimeter and split the top corner in two equal halves.
+    start at 0, end at the duct perimeter and (duct side) split the top corner in two equal halves;
+    the two halves of the top-corner GAP cell may differ (hex sides meshed by different neighbours).
 (D) bounded: run-time contracts on the maps of generated mesh pairs (ring counts
     1..15 x 1..15, unequal pitches, unrodded, mixed sides) and of reactor-built cores.
 """
@@ -32,9 +33,12 @@ import numpy as np
 from pvc import core, loopcut, arrays
 from pvc.core import Sym
 
-MODULES = ['dassh.mesh_functions']
+from . import common
+MODULES = ['dassh.mesh_functions', 'dassh.core'] + common.RR_MODULES + common.UR_MODULES
 PROPERTY = 'C10'
 FUNCTIONS = ['dassh.mesh_functions:_map_asm2gap (nested loops cut from source; symbolic array length)',
+             'dassh.region_rodded:RoddedRegion.calculate_xbnds', 'dassh.region_unrodded:SingleNodeHomogeneous.calculate_xbnds',
+             'dassh.core:Core._calculate_gap_xbnds',
              'dassh.mesh_functions:_map_asm2gap (whole function, fixed sizes, symbolic values)',
              'dassh.mesh_functions:map_across_gap']
 ASSUMPTIONS = ['numpy.searchsorted(a, v) on a strictly increasing array returns k with a[k-1] < v <= a[k] (assumed '
@@ -45,7 +49,9 @@ ASSUMPTIONS = ['numpy.searchsorted(a, v) on a strictly increasing array returns 
                'np.zeros returns an all-zero array (initial value of the tracked entry)']
 NOT_DECIDED = ['floating-point ties between boundaries of the two meshes that coincide only up to round-off '
                '(np.allclose tolerance 1e-8 + 1e-5 |x| decides "same mesh")']
-BOUNDED = []
+BOUNDED = ['runtime.* : run-time contracts on the maps built by the real Reactor for generated 7-position cores: ring counts '
+           '2..15 x 2..15 (quick tier: a 6 x 6 subset), unequal pitches, unrodded axial regions, double ducts, neighbours '
+           'alternating per hex side; single-pin assemblies (ring count 1) are rejected by the input reader']
 
 
 def _impl_r(i):
@@ -303,5 +309,319 @@ telescope.cname = 'lemma:overlaps-sum-to-length'
 telescope.run_kw = dict(max_paths=400, budget_ms=8000, pool_size=2, check_div=False)
 
 
+# ---------------------------------------------------------------------------------------
+# (B) the whole real function on symbolic boundary values, fixed sizes
+def _meshes(S, n, m, same, pad, equal_halves=False):
+    """xb_reg = [0, r1 < ... < rn, P] with the top corner split in two equal halves (P - rn = r1);
+    xb_core = [c1 < ... < cm, 0 ... 0] (gap format: positive boundaries, zero padding), cm < P"""
+    sym = S.mode == 'sym'
+    dr = S.pos('dr', 0.1, 0.3)
+    r = [dr]
+    for i in range(1, n):
+        r.append(r[-1] + S.pos(f'gr{i}', 0.2, 0.6))
+    P = r[-1] + dr
+    if same:
+        c = list(r)
+        m = n
+    else:
+        # the two halves of the top-corner gap cell belong to different hex sides, which can be meshed by
+        # different neighbours: they may differ in length
+        dc = S.pos('dc', 0.1, 0.3)
+        dc_last = dc if equal_halves else S.pos('dc_last', 0.1, 0.3)
+        c = [dc]
+        for j in range(1, m - 1):
+            c.append(c[-1] + S.pos(f'gc{j}', 0.2, 0.6))
+        S.assume(c[-1] < P - dc_last, 'gap boundaries increasing up to the split corner')
+        c.append(P - dc_last)
+    zero = 0
+    xr = [zero] + r + [P]
+    xc = c + [zero] * pad
+    if sym:
+        xb_reg = np.empty(len(xr), dtype=object)
+        for i, v in enumerate(xr):
+            xb_reg[i] = v if isinstance(v, Sym) else Sym(core.C(v))
+        xb_core = arrays.mask_array([v if isinstance(v, Sym) else 0.0 for v in xc])
+    else:
+        xb_reg = np.array(xr, dtype=float)
+        xb_core = np.array(xc, dtype=float)
+    return xb_reg, xb_core, r, c, P, m
+
+
+def whole(S, cfg):
+    from dassh import mesh_functions
+    n, same, pad = cfg['n'], cfg.get('same', False), cfg.get('pad', 1)
+    xb_reg, xb_core, r, c, P, m = _meshes(S, n, cfg.get('m', n), same, pad, cfg.get('equal_halves', False))
+    # "the meshes coincide": same number of cells and every boundary equal within numpy's allclose tolerance
+    coincide = same
+    if not same and n == m:
+        coincide = True
+        for a, b in zip(c, r):
+            d = a - b
+            ad = d if d >= 0 else -d
+            if not (ad <= 1e-08 + 1e-05 * b):
+                coincide = False
+    F, G = mesh_functions._map_asm2gap(xb_reg, xb_core)
+    fine = m + pad
+    S.holds('shape.gap2duct', tuple(F.shape) == (n, fine))
+    S.holds('shape.duct2gap', tuple(G.shape) == (fine, n))
+    # cell widths with the split top corner merged into the LAST cell
+    w = [r[i + 1] - r[i] for i in range(n - 1)] + [(P - r[-1]) + r[0]]
+    u = [c[j + 1] - c[j] for j in range(m - 1)] + [(P - c[-1]) + c[0]]
+    for i in range(n):
+        for j in range(fine):
+            S.le(f'gap2duct.nonneg[{i},{j}]', 0, F[i, j])
+            S.le(f'duct2gap.nonneg[{j},{i}]', 0, G[j, i])
+            if j >= m:
+                S.eq(f'gap2duct.padding_zero[{i},{j}]', F[i, j], 0)
+                S.eq(f'duct2gap.padding_zero[{j},{i}]', G[j, i], 0)
+    for i in range(n):
+        S.eq(f'gap2duct.constants_exact[{i}]', sum(F[i, j] for j in range(fine)), 1)
+    for j in range(m):
+        S.eq(f'duct2gap.constants_exact[{j}]', sum(G[j, i] for i in range(n)), 1)
+    if not coincide or same:
+        # conservation: sum_j u_j (G v)_j = sum_i w_i v_i and sum_i w_i (F t)_i = sum_j u_j t_j for every v, t
+        # (meshes that coincide only within the tolerance are mapped by the identity: conservative to that tolerance)
+        for i in range(n):
+            S.eq(f'duct2gap.conservative[{i}]', sum(u[j] * G[j, i] for j in range(m)), w[i])
+        for j in range(m):
+            S.eq(f'gap2duct.conservative[{j}]', sum(w[i] * F[i, j] for i in range(n)), u[j])
+    if coincide:
+        for i in range(n):
+            for j in range(n):
+                S.eq(f'identity.gap2duct[{i},{j}]', F[i, j], 1 if i == j else 0)
+                S.eq(f'identity.duct2gap[{i},{j}]', G[i, j], 1 if i == j else 0)
+    # map_across_gap is the matrix-vector product
+    v = S.vec('v', fine, 'real', -1.0, 1.0)
+    out = mesh_functions.map_across_gap(v, F)
+    for i in range(n):
+        S.eq(f'map_across_gap.is_product[{i}]', out[i], sum(F[i, j] * v[j] for j in range(fine)))
+    S.eq('canary.first_weight_is_half', F[0, 0], 0.5 + 0 * F[0, 0], canary=True)
+
+
+whole.cname = '_map_asm2gap'
+whole.run_kw = dict(max_paths=3000, budget_ms=6000, pool_size=8)
+
+
+# ---------------------------------------------------------------------------------------
+# (C) call-site preconditions: the producers of the two meshes
+def xbnds_rodded(S, cfg):
+    from .common import make_rodded
+    n_ring = cfg['n_ring']
+    rr = make_rodded(S, n_ring=n_ring, n_duct=cfg.get('n_duct', 1), abstract_geometry=False)
+    x = rr.calculate_xbnds()
+    nd = rr.subchannel.n_sc['duct']['total']
+    sq3 = Sym(core.C(core.Q3(0, 1))) if S.mode == 'sym' else math.sqrt(3)
+    P = 6 * rr.duct_ftf[-1][1] / sq3
+    hs = P / 6
+    S.holds('xbnds.count', len(x) == nd + 2 and nd == 6 * n_ring)
+    S.eq('xbnds.starts_at_zero', x[0], 0)
+    S.eq('xbnds.ends_at_perimeter', x[-1], P)
+    for i in range(len(x) - 1):
+        S.lt(f'xbnds.increasing[{i}]', x[i], x[i + 1])
+    S.eq('xbnds.corner_split_in_equal_halves', x[1], P - x[-2])
+    for side in range(6):
+        for k in range(n_ring):
+            S.eq(f'xbnds.side_layout[{side},{k}]', x[1 + side * n_ring + k], side * hs + x[1] + k * rr.pin_pitch)
+    S.eq('canary.xbnds_uniform', x[2] - x[1], x[1] - x[0], canary=True)
+
+
+xbnds_rodded.cname = 'RoddedRegion.calculate_xbnds'
+xbnds_rodded.run_kw = dict(check_div=False)     # divisions inside calculate_geometry: C08
+
+
+def xbnds_unrodded(S, cfg):
+    from .common import make_unrodded
+    ur = make_unrodded(S, model=cfg.get('model', 'simple'))
+    x = ur.calculate_xbnds()
+    sq3 = Sym(core.C(core.Q3(0, 1))) if S.mode == 'sym' else math.sqrt(3)
+    P = 6 * ur.duct_ftf[1] / sq3
+    S.holds('xbnds.count', len(x) == 8)
+    S.eq('xbnds.starts_at_zero', x[0], 0)
+    S.eq('xbnds.ends_at_perimeter', x[-1], P)
+    for i in range(7):
+        S.lt(f'xbnds.increasing[{i}]', x[i], x[i + 1])
+    S.eq('xbnds.corner_split_in_equal_halves', x[1], P - x[-2])
+    for side in range(6):
+        S.eq(f'xbnds.side_layout[{side}]', x[1 + side], side * P / 6 + P / 12)
+    S.eq('canary.xbnds_uniform', x[2] - x[1], x[1] - x[0], canary=True)
+
+
+xbnds_unrodded.cname = 'unrodded.calculate_xbnds'
+
+
+def xbnds_gap(S, cfg):
+    """Core._calculate_gap_xbnds: each hex side carries the mesh (pitch, corner length, cells per side) of the
+    finer of the two assemblies that share it; whichever assembly that is, its own duct relation
+    hex side = cells * pitch + 2 * corner (xbnds_rodded.side_layout / corner_split; corner = side / 2 without pins)
+    holds with the common outer flat-to-flat distance (precondition here)."""
+    from dassh import core as dcore
+    scps = cfg['scps']                 # cells per side, one entry per hex side
+    sym = S.mode == 'sym'
+    hs = S.pos('hex_side', 0.05, 0.1)
+    sq3 = Sym(core.C(core.Q3(0, 1))) if sym else math.sqrt(3)
+    c = dcore.Core.__new__(dcore.Core)
+    c.n_asm = 1
+    c.duct_oftf = hs * sq3
+    dims = np.empty((1, 6, 2), dtype=object if sym else float)
+    for s_ in range(6):
+        if scps[s_] == 0:
+            dims[0, s_, 0] = 0.0
+            dims[0, s_, 1] = hs / 2
+        else:
+            pp = S.pos(f'pp{s_}', 0.005, 0.02)
+            S.assume(scps[s_] * pp < hs, 'cells fit on the side')
+            dims[0, s_, 0] = pp
+            dims[0, s_, 1] = (hs - scps[s_] * pp) / 2
+    c._geom_params = {'dims': dims, 'sc_per_side': np.array([scps], dtype=int)}
+    width = sum(scps) + 6 + cfg.get('pad', 2)
+    c._asm_sc_adj = np.zeros((1, width), dtype=int)
+    x = c._calculate_gap_xbnds()
+    row = x[0]
+    m = sum(scps) + 6
+    S.holds('gap_xbnds.shape', x.shape == (1, width))
+    for j in range(m, width):
+        S.eq(f'gap_xbnds.padding_zero[{j}]', row[j], 0)
+    S.lt('gap_xbnds.first_positive', 0, row[0])
+    for j in range(m - 1):
+        S.lt(f'gap_xbnds.increasing[{j}]', row[j], row[j + 1])
+    S.lt('gap_xbnds.last_below_perimeter', row[m - 1], 6 * hs)
+    k = 0
+    for s_ in range(6):
+        for i in range(scps[s_] + 1):
+            S.eq(f'gap_xbnds.side_layout[{s_},{i}]', row[k], s_ * hs + dims[0, s_, 1] + i * dims[0, s_, 0])
+            k += 1
+        S.eq(f'gap_xbnds.side_ends_one_corner_before_next[{s_}]', row[k - 1], (s_ + 1) * hs - dims[0, s_, 1])
+    S.eq('canary.gap_xbnds_first_is_half_side', row[0], hs / 2, canary=(scps[0] != 0))
+
+
+xbnds_gap.cname = 'Core._calculate_gap_xbnds'
+
+
 def configs(tier):
-    return [(row_init, {}), (inner_step, {}), (row_exit, {}), (telescope, {})]
+    out = [(row_init, {}), (inner_step, {}), (row_exit, {}), (telescope, {}),
+           (whole, dict(n=2, same=True)), (whole, dict(n=3, same=True, pad=2)),
+           (whole, dict(n=2, m=2)), (whole, dict(n=2, m=3)), (whole, dict(n=2, m=2, equal_halves=True)), (whole, dict(n=3, m=2)), (whole, dict(n=3, m=4, pad=2))]
+    out += [(xbnds_rodded, dict(n_ring=2)), (xbnds_rodded, dict(n_ring=3, n_duct=2)), (xbnds_unrodded, dict()),
+            (xbnds_gap, dict(scps=[1, 1, 2, 2, 0, 1])), (xbnds_gap, dict(scps=[3, 0, 0, 3, 3, 3], pad=0))]
+    if tier == 'thorough':
+        out += [(xbnds_rodded, dict(n_ring=5, n_duct=3)), (xbnds_unrodded, dict(model='6node'))]
+        out += [(whole, dict(n=4, m=3)), (whole, dict(n=3, m=5)), (whole, dict(n=4, m=4))]
+    return out
+
+
+# ---------------------------------------------------------------------------------------
+# (D) bounded: run-time contracts on reactor-built maps
+def _check_maps(r):
+    bad = []
+    n_maps = 0
+    for a, asm in enumerate(r.assemblies):
+        raw = np.asarray(r.core._asm_sc_xbnds[a], dtype=float)
+        for ri, reg in enumerate(asm.region):
+            xb = np.asarray(reg.calculate_xbnds(), dtype=float)
+            F, G = reg._map['gap2duct'], reg._map['duct2gap']
+            n_maps += 1
+            tag = f'asm {a} region {ri}'
+            P = xb[-1]
+            c = raw[raw > 0]
+            m, n = len(c), len(xb) - 2
+            tol = 1e-9 * P
+            if not (xb[0] == 0 and np.all(np.diff(xb) > 0) and abs(xb[1] - (P - xb[-2])) <= tol):
+                bad.append(f'{tag}: precondition on calculate_xbnds fails: {xb[:3]} ... {xb[-3:]}')
+                continue
+            if not (np.all(np.diff(c) > 0) and c[-1] < P):
+                bad.append(f'{tag}: precondition on gap boundaries fails: {c[:3]} ... {c[-3:]} P={P}')
+                continue
+            if F.shape != (n, len(raw)) or G.shape != (len(raw), n):
+                bad.append(f'{tag}: shapes {F.shape} {G.shape}, expected ({n},{len(raw)})')
+                continue
+            w = np.append(np.diff(xb[1:-1]), (P - xb[-2]) + xb[1])
+            u = np.append(np.diff(c), (P - c[-1]) + c[0])
+            coincide = (m == n) and bool(np.allclose(c, xb[1:-1]))
+            if F.min() < 0 or G.min() < 0:
+                bad.append(f'{tag}: negative weight {min(F.min(), G.min())}')
+            if np.abs(F.sum(axis=1) - 1).max() > 1e-9 or np.abs(G[:m].sum(axis=1) - 1).max() > 1e-9:
+                bad.append(f'{tag}: a uniform field is not reproduced: row sums deviate by '
+                           f'{max(np.abs(F.sum(axis=1) - 1).max(), np.abs(G[:m].sum(axis=1) - 1).max()):.3e}')
+            if np.abs(F[:, m:]).max(initial=0) > 0 or np.abs(G[m:]).max(initial=0) > 0:
+                bad.append(f'{tag}: weights on padding cells')
+            ctol = 3e-5 * P if coincide else 1e-9 * P
+            e1 = np.abs(w @ F[:, :m] - u).max()
+            e2 = np.abs(u @ G[:m] - w).max()
+            if e1 > ctol or e2 > ctol:
+                bad.append(f'{tag}: perimeter-weighted integral not preserved: gap->duct {e1:.3e}, duct->gap {e2:.3e}')
+            if coincide and (np.abs(F[:, :m] - np.identity(n)).max() > 0 or np.abs(G[:m] - np.identity(n)).max() > 0):
+                bad.append(f'{tag}: coinciding meshes not mapped by the identity')
+    return n_maps, bad
+
+
+def _runtime_case(case):
+    import sys
+    import os
+    import shutil
+    import tempfile
+    sys.path.insert(0, os.environ.get('DASSH_REPO', '/repo'))
+    from pvc import geninput as Gn
+    name, a, b, kw = case
+    wd = tempfile.mkdtemp(prefix='c10_')
+    try:
+        asms = {'A': dict(n_ring=a, pitch=0.036 / a, dpin=0.030 / a, wire=0.004 / a, **kw.get('A', {})),
+                'B': dict(n_ring=b, pitch=0.0364 / b, dpin=0.030 / b, wire=0.004 / b, **kw.get('B', {}))}
+        pos = [('A', 1, 1, 5.0)] + [('B' if k % 2 else 'A', 2, k, 5.0) for k in range(1, 7)]
+        if kw.get('holes'):
+            pos = [p for p in pos if (p[1], p[2]) not in kw['holes']]
+        p = Gn.write_problem(wd, asms=asms, positions=pos, gap_model='flow')
+        inp, r = Gn.build(p)
+        n_maps, bad = _check_maps(r)
+        return name, n_maps, bad
+    except BaseException as e:
+        return name, 0, [f'{type(e).__name__}: {e}']
+    finally:
+        shutil.rmtree(wd, ignore_errors=True)
+
+
+def _runtime_cases(tier):
+    rings = [2, 3, 4, 6, 9, 15] if tier == 'quick' else list(range(2, 16))
+    cases = [(f'rings[{a},{b}]', a, b, {}) for a in rings for b in rings]
+    cases += [(f'unrodded[{a},{b}]', a, b, {'A': dict(unrodded=[('lower', 0.0, 0.3, 'simple'), ('upper', 0.8, 1.0, '6node')])})
+              for a, b in ((2, 3), (3, 3), (5, 2), (2, 7))]
+    cases += [(f'double_duct[{a},{b}]', a, b, {'A': dict(n_duct=2), 'B': dict(n_duct=2)}) for a, b in ((2, 3), (4, 4), (6, 3))]
+    cases += [(f'holes[{a},{b}]', a, b, {'holes': [(2, 2), (2, 5)]}) for a, b in ((2, 3), (3, 5))]
+    return cases
+
+
+def extra_checks(tier, seed):
+    import multiprocessing as mp
+    import time
+    t0 = time.time()
+    cases = _runtime_cases(tier)
+    with mp.get_context('fork').Pool(12) as pool:
+        res = pool.map(_runtime_case, cases, chunksize=1)
+    secs = time.time() - t0
+    results = []
+    for (name, n_maps, bad), case in zip(res, cases):
+        ok = not bad and n_maps > 0
+        results.append(dict(name=f'runtime.maps[{name}]', status='proved' if ok else 'refuted',
+                            backend='bounded:run-time contract', seconds=secs / len(cases),
+                            detail=('; '.join(bad)[:600] if bad else f'{n_maps} maps'), sample=(name == 'rings[3,9]'),
+                            witness=dict(values=dict(case=name)),
+                            replay=dict(reproduced=not ok, point=dict(values=dict(case=name)), native='; '.join(bad)[:600])))
+    return [dict(name='reactor-built mesh maps (run-time contracts)', results=results,
+                 notes=['BOUNDED: runtime.maps[*] are run-time contracts on the maps of generated cores'])]
+
+
+def replay(doc):
+    w = (doc.get('witness') or {}).get('values') or {}
+    cases = [c for c in _runtime_cases('thorough') if c[0] == w.get('case')]
+    if not cases:
+        print('replay: symbolic obligation - re-run ./check C10 to reproduce; witness:', json_short(doc.get('witness')))
+        return 0
+    name, n_maps, bad = _runtime_case(cases[0])
+    for b in bad:
+        print('replay:', b)
+    print('REPRODUCED' if bad else 'not reproduced')
+    return 1 if bad else 0
+
+
+def json_short(x):
+    import json
+    return json.dumps(x, default=str)[:800]
